@@ -33,6 +33,9 @@ fn base_project(r: &mut Rng) -> (Vec<Vec<String>>, Vec<String>, Vec<String>, Vec
     let words: Vec<String> = (0..r.range(3, 6)).map(|_| rand_word(r, &WordCfg { tone: false, ..WordCfg::default() })).collect();
     let into = if r.chance(1, 2) { vec!["Ж > ʒ".to_string(), "ш > ʃ:[+long]".to_string()][..r.range(1, 2)].to_vec() } else { vec![] };
     let from = if r.chance(1, 2) { vec!["ʃ > sh".to_string(), "$ > *".to_string(), "V:[+long] > +@{macron}".to_string()][..r.range(1, 3)].to_vec() } else { vec![] };
+    // blank lines between alias lines do nothing - but they are lines, and the line an alias error names counts them
+    let (mut into, mut from) = (into, from);
+    for list in [&mut into, &mut from] { if !list.is_empty() && r.chance(1, 2) { for _ in 0..r.range(1, 2) { let k = r.below(list.len() + 1); list.insert(k, if r.chance(1, 2) { String::new() } else { "  ".to_string() }); } } }
     (groups, words, into, from)
 }
 
